@@ -168,10 +168,20 @@ def transceivers(net):
 
 
 def seeded_pairs(net, rng, k):
+    """k seeded (source, destination) transceiver pairs between which the topology has a route (the EDFA and Raman
+    examples are one-way links)"""
+    import networkx as nx
+    by = {n.uid: n for n in net.nodes()}
     trx = transceivers(net)
     pairs = [(a, b) for a in trx for b in trx if a != b]
     rng.shuffle(pairs)
-    return pairs[:k]
+    out = []
+    for a, b in pairs:
+        if nx.has_path(net, by[a], by[b]):
+            out.append((a, b))
+        if len(out) == k:
+            break
+    return out
 
 
 def make_request(base_req, src, dst, spectrum=None, **over):
@@ -218,6 +228,8 @@ def record(name, netname, src, dst, spectrum=None, ref=None, **over):
     net, eq, base_req, sp = network(netname)
     req = make_request(base_req, src, dst, spectrum, **over)
     path = copy.deepcopy(rq.compute_constrained_path(net, req))
+    if len(path) < 2:
+        raise Machinery(f'{name}: no route from {src} to {dst} in {netname}')
     labels = Labels()
     given = []
     if spectrum is not None:
@@ -266,17 +278,22 @@ def record(name, netname, src, dst, spectrum=None, ref=None, **over):
     for e in rec.events:
         ev.append(dict(cls=e['cls'], d=int(e['depth']), ops=list(e['ops']), **project_spectrum(e['post'], labels)))
         uids.append(e['uid'])
+    fdev = 0.0          # float-level deviation of the share sum from 1 (before rounding to ppb), for the tolerance record
+    for snap in [sn for _, sn in stages] + [e['post'] for e in rec.events]:
+        with np.errstate(divide='ignore', invalid='ignore'):
+            d = np.abs((snap['signal'] + snap['ase'] + snap['nli']) / snap['pch'] - 1)
+        if len(d) and np.all(np.isfinite(d)):
+            fdev = max(fdev, float(np.max(d)))
     rx = dict(f=[], snr=[], osnr=[], onli=[], isnr=[], iosnr=[], inli=[])
     if outcome == 0:
         t = path[-1]
         rx = dict(f=list(ev[-1]['f']), snr=udbv(t.snr), osnr=udbv(t.osnr_ase), onli=udbv(t.osnr_nli),
                   isnr=ninv(t.snr), iosnr=ninv(t.osnr_ase), inli=ninv(t.osnr_nli))
-    from gnpy.core.utils import watt2dbm
     si = eq['SI']['default']
     trace = dict(name=name, outcome=outcome, req=given, amps=amp_bands(path), dflt=[mhz(si.f_min), mhz(si.f_max)],
                  ev=ev, rx=rx, ref=ref if ref is not None else dict(f=[], snr=[], osnr=[], onli=[]))
     side = dict(name=name, net=netname, src=src, dst=dst, exception=exc, traceback=tb, uids=uids,
-                nch=len(given), classes=[e['cls'] for e in ev])
+                nch=len(given), classes=[e['cls'] for e in ev], float_share_dev=fdev)
     return trace, side
 
 
@@ -339,19 +356,21 @@ def scenarios(tier, seed):
 
     thorough = tier == 'thorough'
     # --- mesh V2 (single band, Fused nodes, several amplifier models)
-    uniform('uniform', 'mesh', 8 if thorough else 2)
+    uniform('uniform', 'mesh', 20 if thorough else 2)
     uniform('uniform-64G-75GHz+10dBm', 'mesh', 2 if thorough else 1, baud_rate=64e9, spacing=75e9, tx_power=1e-2)
     with_spectrum('initial_spectrum1', 'mesh', lambda: shipped_spectrum('initial_spectrum1.json'))
     with_spectrum('initial_spectrum2', 'mesh', lambda: shipped_spectrum('initial_spectrum2.json'))
     with_spectrum('one-carrier', 'mesh', lambda: carriers([std(0)]), permute=False)
     with_spectrum('two-carriers', 'mesh', lambda: carriers([std(100_000), std(0, lab='y')]))
     with_spectrum('overlap-by-1MHz', 'mesh', lambda: carriers([std(0), std(49_999), std(200_000)]), permute=False)
+    with_spectrum('overlap-mixed-width-by-1MHz', 'mesh', lambda: carriers([std(0), std(62_499, w=75_000, b=64_000)]),
+                  permute=False)
     with_spectrum('non-neighbour-order-overlap', 'mesh', lambda: carriers([std(200_000), std(0, w=100_000), std(60_000)]),
                   permute=False)
     with_spectrum('baud-wider-than-slot', 'mesh', lambda: carriers([std(0), std(100_000, b=50_001)]), permute=False)
     with_spectrum('touching-slots-baud=slot', 'mesh', lambda: carriers([std(50_000, b=50_000), std(0), std(112_500, w=75_000, b=64_000)]))
     with_spectrum('out-of-band-only', 'mesh', lambda: carriers([std(-3_500_000), std(-4_000_000)]), permute=False)
-    for k in range(4 if thorough else 1):
+    for k in range(6 if thorough else 1):
         with_spectrum(f'seeded-mixed-{k}', 'mesh', lambda: carriers(seeded_carriers(rng, -1_800_000, 2_000_000)))
     # --- multi band: C+L path, mixed multi-band / single-band path, single-band path of the same network
     mb = lambda: shipped_spectrum('multiband_spectrum.json')           # noqa
@@ -369,19 +388,19 @@ def scenarios(tier, seed):
     with_spectrum('band-edges', 'multiband', edges, pair=('trx Site_D', 'trx Site_L'), permute=False)
     with_spectrum('one-carrier-per-band', 'multiband', lambda: carriers([std(0, lab='c'), std(-4_000_000, lab='l')]),
                   pair=('trx Site_A', 'trx Site_D'), permute=False)
-    uniform('uniform', 'multiband', 4 if thorough else 1)
+    uniform('uniform', 'multiband', 8 if thorough else 1)
     # --- OpenROADM, EDFA example, fused ROADM, Raman, CORONET
-    uniform('uniform', 'sweden5', 4 if thorough else 1)
+    uniform('uniform', 'sweden5', 8 if thorough else 1)
     uniform('uniform', 'edfa', 1)
     uniform('uniform', 'fusedroadm', 2 if thorough else 1)
     with_spectrum('seeded-mixed', 'fusedroadm', lambda: carriers(seeded_carriers(rng, -1_800_000, 2_000_000, 12)))
     with_spectrum('raman-mixed', 'raman-gn', lambda: carriers(seeded_carriers(rng, -1_800_000, 2_000_000, 6)),
                   permute=thorough)
     if thorough:
-        uniform('uniform', 'sweden4', 4)
+        uniform('uniform', 'sweden4', 8)
         with_spectrum('initial_spectrum2', 'sweden5', lambda: shipped_spectrum('initial_spectrum2.json'))
         uniform('uniform', 'raman', 1)
-        uniform('uniform', 'coronet', 3)
+        uniform('uniform', 'coronet', 8)
         with_spectrum('initial_spectrum2', 'coronet', lambda: shipped_spectrum('initial_spectrum2.json'))
     return jobs
 
